@@ -279,7 +279,8 @@ impl std::fmt::Display for InvalidProofKind {
                 leaf_index,
                 tree_size,
             } => {
-                let tree_index = crate::leaf_index_to_tree_index(*leaf_index);
+                // the tree index of very large leaf indices is not representable
+                let tree_index = leaf_index.saturating_mul(2);
                 f.write_fmt(format_args!(
                     "leaf index {leaf_index} corresponding to tree index {tree_index} exceeds \
                      tree of size {tree_size}"
